@@ -1,5 +1,6 @@
 import Clover.Props.C17
 import Clover.Proofs.PlannerModel
+import Clover.Proofs.ReadsExact
 /-! # C02 — index transparency (planner soundness + scan exactness, on the model's definitions) -/
 namespace CV.Props.C02
 open CV OC
@@ -16,19 +17,8 @@ theorem planner_sound (d : Doc) (hd : AllNumKV numOK d) (c : Crit) (hc : CritOK 
 
 /-- The single index query of a plan scans `fieldRange f (flatten c)` for the selected field. -/
 theorem indexQuery_range (indexed : List Bytes) (c : Crit) (f : Bytes) (r : Range)
-    (h : indexQuery indexed (some c) = some (f, r)) : fieldRange f (flatten c) = some r := by
-  unfold indexQuery at h
-  simp only at h
-  split at h
-  · simp at h
-  · split at h
-    · simp at h
-    · rename_i g rest heq
-      cases hfr : fieldRange g (flatten c) with
-      | none => simp [hfr] at h
-      | some r' =>
-        simp only [hfr, Option.map_some, Option.some.injEq, Prod.mk.injEq] at h
-        rw [← h.1, ← h.2]; exact hfr
+    (h : indexQuery indexed (some c) = some (f, r)) : fieldRange f (flatten c) = some r :=
+  CV.indexQuery_range indexed c f r h
 
 /-- Index transparency at the level of candidates: whatever the store around the index, if the
     plan chose the index on `f` with range `r`, every document that satisfies the criteria and
@@ -58,6 +48,48 @@ theorem index_candidates_complete (c0 fld : Bytes) (pre post : KVS) (E : List IE
     | false => simp only [Bool.false_eq_true, if_false]; exact List.mem_map.2 ⟨_, hmem, rfl⟩
     | true => simp only [if_true]; exact List.mem_map.2 ⟨_, List.mem_reverse.2 hmem, rfl⟩
   exact List.mem_reverse.1 this
+
+
+/-- **The store really has the shape the scan theorems are stated for.**  In every store representing a
+    well-formed abstract state, the entries of a catalogued index form one contiguous block
+    `pre ++ (block c f E ++ post)` whose entry list `E` is a permutation of the (value, id) pairs of the
+    collection's documents, in non-decreasing value order, everything else sorting strictly before or
+    after every key of the block. -/
+theorem index_block_shape (s : Spec.State) (w : KVS) (hw : WF s) (hr : Rep s w) (c : Bytes) (coll : Spec.Coll)
+    (hl : Spec.lookup c s = some coll) (f : Bytes) (hf : f ∈ coll.indexes)
+    (hdom : ∀ e ∈ coll.docs, Dom numOK (e.2.get f)) :
+    ∃ pre post E, w = pre ++ (block c f E ++ post) ∧
+      (∀ e ∈ pre, ∀ t, lexLt e.1 (Keys.idxPrefix c f ++ t) = true) ∧
+      (∀ e ∈ post, ∀ t, lexLt (Keys.idxPrefix c f ++ t) e.1 = true) ∧
+      (∀ e ∈ E, Dom numOK e.1 ∧ IdOK e.2) ∧ E.Pairwise (Pl.leE vord) ∧
+      E.Perm (coll.docs.map (fun e => (e.2.get f, e.1))) :=
+  store_shape s w hw hr c coll hl f hf hdom
+
+/-- **Index transparency of `FindAll`, end to end on the model**: for every index set (created before,
+    between or after the writes — the hypothesis is only that the store represents the abstract
+    state, which `C06.inv_reachable` gives after any history), every criteria tree in the key domain and
+    whichever plan the planner picks (index range, index order, full scan; either direction), a
+    fault-free `FindAll(q)` without sort and window returns a permutation of the specification's
+    answer, which does not mention indexes at all. -/
+theorem findAll_index_transparent (s : Spec.State) (σ : KVS) (hw : WF s) (hr : Rep s σ) (q : Query)
+    (coll : Spec.Coll) (hl : Spec.lookup q.coll s = some coll) (hdomain : KeyDomain q coll)
+    (hskip : q.skip = 0) (hlimit : q.limit < 0) :
+    ∃ res, (withTx false (Op.body likeFn fnFam (.findAll q)) noFault σ).1 = .ok (.docs res) ∧
+      res.Perm (Spec.findAll likeFn fnFam q coll) :=
+  findAll_exact_any_plan likeFn fnFam s σ hw hr q coll hl hdomain hskip hlimit
+
+/-- **Index transparency of `Count`** (criteria present; any sort, skip and limit). -/
+theorem count_index_transparent (s : Spec.State) (σ : KVS) (hw : WF s) (hr : Rep s σ) (q : Query) (cr : Crit)
+    (hq : q.crit = some cr) (coll : Spec.Coll) (hl : Spec.lookup q.coll s = some coll) (hdomain : KeyDomain q coll) :
+    (withTx false (Op.body likeFn fnFam (.count q)) noFault σ).1 = (Spec.step likeFn fnFam s (.count q)).1 :=
+  count_exact_any_plan likeFn fnFam s σ hw hr q cr hq coll hl hdomain
+
+/-- **Bulk writes through any plan** keep the invariant and leave the other collections untouched
+    (`C03.selection_is_live_any_plan` says what they select). -/
+theorem bulk_write_any_plan (s : Spec.State) (σ : KVS) (hw : WF s) (hr : Rep s σ) (q : Query) (u : Upd) :
+    let r := withTx true (Op.body likeFn fnFam (.update q u)) noFault σ
+    ∃ s', Rep s' r.2.1 ∧ WF s' ∧ ∀ c', c' ≠ q.coll → Spec.lookup c' s' = Spec.lookup c' s :=
+  update_inv likeFn fnFam s σ hw hr q u
 
 /-- The abstract statements the model-level ones are instances of (kept for reference). -/
 theorem planner_sound_abstract {V : Type} (O : Pl.VOrd V) (d : Pl.Doc V) (f : Pl.Field) (c : Pl.Crit V)
